@@ -6,6 +6,8 @@ CONSTANTS
   Foreigns = FALSE
   Wraps = TRUE
   WrapMax = 1
+  ForeignVals <- ForeignValsQuick
+  ForeignBase <- ForeignBaseQuick
   WithAcc = FALSE
   ExportMode = "verdict"
 INVARIANT EmptyAccepts
